@@ -113,6 +113,16 @@ fn run_with<P: EffectiveTLDProvider + Sync + 'static, F: Fn() -> P>(mk: F, case:
     let ascii: Option<String> = eff.as_ref().and_then(|e| idna::domain_to_ascii(e).ok());
 
     let verifier = RpIdVerifier::new(mk()).allows_insecure_localhost(allow);
+    // optional history: other (origin, RP ID) pairs judged by the SAME verifier first - a verdict must not depend on them
+    if let Some(before) = case["before"].as_array() {
+        for b in before {
+            if let Ok(o) = make_origin(b) {
+                let r: Option<String> = b["rp"].as_str().map(|s| s.to_string());
+                let v = &verifier;
+                let _ = guarded(std::panic::AssertUnwindSafe(move || json!({"r": v.assert_domain(&o, r.as_deref()).is_ok()})));
+            }
+        }
+    }
     let res = {
         let v = &verifier;
         let o = &origin;
